@@ -329,6 +329,76 @@ def _attrs_read(expr, vals, selfname, seen=None, depth=0):
     return out
 
 
+
+LOSSY_ATTRS = {"keys", "shape", "ndim", "size", "dtype", "nbytes", "__class__", "__len__"}
+LOSSY_CALLS = {"len", "type", "id", "bool", "isinstance", "hasattr", "callable"}
+
+
+def _reads(node, methods, selfname, vals=None, depth=0, seen=None):
+    """self attribute -> {"full", "lossy"}: how an expression / statement list depends on the attributes of self.  A read
+    under a lossy projection (`.keys()`, `len(...)`, `.shape`, `type(...)`) determines less than the attribute's value;
+    `self.m(...)` is expanded through the bodies of the class's own methods."""
+    out = {}
+    seen = set() if seen is None else seen
+    vals = vals or {}
+
+    def add(a, kind):
+        out.setdefault(a, set()).add(kind)
+
+    def walk(n, lossy):
+        if n is None:
+            return
+        if isinstance(n, list):
+            for x in n:
+                walk(x, lossy)
+            return
+        if isinstance(n, ast.Call):
+            f = n.func
+            if isinstance(f, ast.Name) and f.id in LOSSY_CALLS:
+                for a in n.args:
+                    walk(a, True)
+                return
+            if isinstance(f, ast.Name) and f.id in ("getattr",) and len(n.args) >= 2 and isinstance(n.args[0], ast.Name) and n.args[0].id == selfname and isinstance(n.args[1], ast.Constant):
+                add(n.args[1].value, "lossy" if lossy else "full")
+                return
+            if isinstance(f, ast.Attribute):
+                m = _self_attr(f, selfname)
+                if m is not None and m in methods and depth < 4 and (m, lossy) not in seen:
+                    seen.add((m, lossy))
+                    mfn, msel = methods[m]
+                    sub = _reads(list(mfn.body), methods, msel, _local_values(mfn), depth + 1, seen)
+                    for a, kinds in sub.items():
+                        for k in kinds:
+                            add(a, "lossy" if lossy else k)
+                    for a in n.args:
+                        walk(a, lossy)
+                    return
+                if f.attr in LOSSY_ATTRS:
+                    walk(f.value, True)
+                    for a in n.args:
+                        walk(a, lossy)
+                    return
+        if isinstance(n, ast.Attribute):
+            a = _self_attr(n, selfname)
+            if a is not None:
+                if isinstance(n.ctx, ast.Load):
+                    add(a, "lossy" if lossy else "full")
+                return
+            if n.attr in LOSSY_ATTRS:
+                walk(n.value, True)
+                return
+        if isinstance(n, ast.Name) and isinstance(n.ctx, ast.Load) and n.id in vals and ("name", n.id) not in seen:
+            seen.add(("name", n.id))
+            for v in vals[n.id]:
+                walk(v[-1] if isinstance(v, tuple) else v, lossy)
+            return
+        for c in ast.iter_child_nodes(n):
+            walk(c, lossy)
+
+    walk(node, False)
+    return out
+
+
 def _writes(fn, selfname):
     """self attributes a method re-binds or mutates in place -> first line."""
     w = {}
@@ -364,17 +434,25 @@ def _self_calls(fn, selfname):
     return {n.func.attr for n in ast.walk(fn) if isinstance(n, ast.Call) and isinstance(n.func, ast.Attribute) and isinstance(n.func.value, ast.Name) and n.func.value.id == selfname}
 
 
-def _lazy_fills(fn, selfname):
-    """[(attribute A, dependencies, line)] for stores `self.A = ...` guarded by a test that reads self.A."""
+def _lazy_fills(fn, selfname, methods=None):
+    """[(attribute A, dependencies, line)] for stores `self.A = ...` guarded by a test that reads self.A.
+    With `methods` (name -> (FunctionDef, selfname) of the class), the dependencies are every attribute the guarded
+    region reads *in full* (through locals and the class's own methods) minus those the guard itself re-validates in
+    full: a guard that only re-checks a lossy projection (`tuple(self.keys())`, a length, a shape) validates nothing else."""
     vals = _local_values(fn)
     out = []
+    regions = []  # stack of (guard tests, guarded statements)
 
     def visit(stmts, guard_attrs):
         for st in stmts:
             if isinstance(st, ast.If):
                 g = guard_attrs | _attrs_read(st.test, vals, selfname)
+                regions.append(([st.test], st.body))
                 visit(st.body, g)
+                regions.pop()
+                regions.append(([st.test], st.orelse))
                 visit(st.orelse, g)
+                regions.pop()
                 continue
             if isinstance(st, ast.Try):
                 # try: return self.A  except AttributeError: compute and store
@@ -396,13 +474,37 @@ def _lazy_fills(fn, selfname):
                     a = _self_attr(t, selfname)
                     if a is not None and a in guard_attrs:
                         deps = _attrs_read(st.value, vals, selfname) - {a}
+                        if methods is not None:
+                            tests, region = [], [st]
+                            for ts, body in regions:
+                                if any(a in _attrs_read(t_, vals, selfname) for t_ in ts):
+                                    tests, region = ts, body
+                                    break
+                            if not tests and early_tests:
+                                tests, region = early_tests, list(fn.body)
+                            rd = _reads(list(region), methods, selfname, vals)
+                            rd2 = _reads(st.value, methods, selfname, vals)
+                            for k_, v_ in rd2.items():
+                                rd.setdefault(k_, set()).update(v_)
+                            validated = set()
+                            for t_ in tests:
+                                # the guard sees the locals as bound *before* it (the fill re-binds them afterwards)
+                                before = {}
+                                for nm_, vs_ in vals.items():
+                                    keep = [v_ for v_ in vs_ if getattr(v_[-1] if isinstance(v_, tuple) else v_, "lineno", 0) < t_.lineno]
+                                    if keep:
+                                        before[nm_] = keep
+                                validated |= {f for f, kinds in _reads(t_, methods, selfname, before).items() if "full" in kinds}
+                            deps = {f for f, kinds in rd.items() if "full" in kinds and f not in methods} - validated - {a}
                         out.append((a, deps, st.lineno))
     # an early-return guard (`if self.A is not None: return self.A`) guards the rest of the body
     body = list(fn.body)
     guard = set()
+    early_tests = []
     for i, st in enumerate(body):
         if isinstance(st, ast.If) and any(isinstance(x, ast.Return) for x in st.body) and not st.orelse:
             guard |= _attrs_read(st.test, vals, selfname)
+            early_tests.append(st.test)
     visit(body, guard)
     return out
 
@@ -440,7 +542,8 @@ def _scan_s2(pm):
             for name, d in info.items():
                 if name in CTOR_LIKE:
                     continue
-                for a, deps, line in _lazy_fills(d["fn"], d["selfname"]):
+                mtab = {n_: (d_["fn"], d_["selfname"]) for n_, d_ in info.items()}
+                for a, deps, line in _lazy_fills(d["fn"], d["selfname"], mtab):
                     if deps:
                         derived.append((a, deps, name, line, "filled lazily (guarded by a test on self.%s)" % a))
                 if d["decs"] & CACHED_PROPERTY or d["decs"] & MEMO_DECORATORS:
@@ -500,6 +603,31 @@ class Img:
     def reset(self, v):
         self.data = v
         self._norm = None
+
+class Multi:
+    def __init__(self, data):
+        self.data = dict(data)
+        self._layout = None
+        self._sizes = None
+    def keys(self):
+        return self.data.keys()
+    def items(self):
+        return self.data.items()
+    def layout(self):
+        keys = tuple(self.keys())
+        if self._layout is None or self._layout[0] != keys:
+            entries = []
+            for k, v in self.items():
+                entries.append((k, v.shape))
+            self._layout = (keys, tuple(entries))
+        return self._layout[1]
+    def sizes(self):
+        # validated against the whole dict: never stale
+        if self._sizes is None or self._sizes[0] != self.data:
+            self._sizes = (dict(self.data), [v.size for v in self.data.values()])
+        return self._sizes[1]
+    def put(self, k, v):
+        self.data[k] = v
 '''
 
 
@@ -526,7 +654,7 @@ def selfcheck():
     pm = _MiniPM(_POSITIVE)
     found, stats = scan(pm)
     keys = sorted(f["witness"] for f in found)
-    if keys != ["derived:Img._norm<-set", "memo:table<-user"]:
+    if keys != ["derived:Img._norm<-set", "derived:Multi._layout<-put", "memo:table<-user"]:
         raise AnalysisError("STATE rule self-check failed: the built-in positive example gives %s" % keys)
     return len(found)
 
@@ -543,6 +671,6 @@ def apply(ctx):
             continue
         n += 1
         ctx.add(Finding(ctx.prop, "%s.STATE.%s" % (ctx.prop, f["kind"]), f["construct"], f["what"], ctx.pm.path(f["mod"]), f["line"], None, f["witness"]))
-    ev.instances("%s.STATE.positive_example_reports" % ctx.prop, n_pos, floor=2)
+    ev.instances("%s.STATE.positive_example_reports" % ctx.prop, n_pos, floor=3)
     ev.extra["state_rule"] = dict(stats, findings_in_package=len(found), findings_involving_this_property=n,
                                   rule="S1 shared-memo mutation, S2 stale derived attribute (ginverif/state.py); whole package scanned, reported where an involved function is analysed by this property")
